@@ -69,62 +69,46 @@ Definition obs_val (t : toks) : toks :=
   | None => bad_input
   end.
 
-Inductive hop :=
-| HValidate (v : value) (name : str) (ver : option vnum)
-| HVersioned (ver : option vnum) (name : str)
-| HExpanded (name : str) (ver : option vnum).
-
-Definition dec_hop (t : toks) : option (hop * toks) :=
+Definition dec_call (t : toks) : option (call * toks) :=
   match t with
   | 0 :: r =>
       match dec_val r with
       | Some (v, r1) =>
           match dec_pair dec_str (dec_opt dec_vnum) r1 with
-          | Some ((name, ver), r2) => Some (HValidate v name ver, r2)
+          | Some ((name, ver), r2) => Some (CValidate v name ver, r2)
           | None => None
           end
       | None => None
       end
   | 1 :: r =>
       match dec_pair dec_str (dec_opt dec_vnum) r with
-      | Some ((name, ver), r2) => Some (HVersioned ver name, r2)
+      | Some ((name, ver), r2) => Some (CVersioned ver name, r2)
       | None => None
       end
   | 2 :: r =>
       match dec_pair dec_str (dec_opt dec_vnum) r with
-      | Some ((name, ver), r2) => Some (HExpanded name ver, r2)
+      | Some ((name, ver), r2) => Some (CExpanded name ver, r2)
       | None => None
       end
   | _ => None
   end.
 
-Definition hstep (s : vstate) (o : hop) : toks * vstate :=
-  match o with
-  | HValidate v name ver =>
-      let '(r, s1) := validate schema_files v name ver s in (enc_msgs r, s1)
-  | HVersioned ver name =>
-      match get_versioned_schema schema_files ver name s with
-      | (Ok e, s1) => (0 :: enc_tree false (entry_tree e), s1)
-      | (Err x, s1) => (enc_err x, s1)
-      end
-  | HExpanded name ver =>
-      match get_expanded_schema schema_files name ver s with
-      | Ok (e, s1) => (0 :: enc_tree false (entry_tree e), s1)
-      | Err x => (enc_err x, s)
-      end
+Definition enc_answer (a : answer) : toks :=
+  match a with
+  | AMsgs r => enc_msgs r
+  | ASchema (Ok t) => 0 :: enc_tree false t
+  | ASchema (Err x) => enc_err x
   end.
 
-Fixpoint hrun (s : vstate) (ops : list hop) : toks :=
-  match ops with
+Fixpoint enc_answers (l : list answer) : toks :=
+  match l with
   | [] => []
-  | o :: ops' =>
-      let '(r, s1) := hstep s o in
-      (Z.of_nat (length r) :: r) ++ hrun s1 ops'
+  | a :: l' => let r := enc_answer a in (Z.of_nat (length r) :: r) ++ enc_answers l'
   end.
 
 Definition obs_hist (t : toks) : toks :=
-  match dec_list dec_hop t with
-  | Some (ops, _) => hrun init_state ops
+  match dec_list dec_call t with
+  | Some (cs, _) => enc_answers (run schema_files init_state cs)
   | None => bad_input
   end.
 
